@@ -66,9 +66,13 @@ def gen(r, tier):
     n_rand = {"quick": 40, "search": 200, "thorough": 1200}[tier]
     cases = [exhaustive(i) for i in range(128)]
     wp, rp = WKINDS, RKINDS + ["DOR"]
-    for _ in range(n_rand):
-        cases.append({"W": [rand_level(r, wp) for _ in range(3)], "PUB": rand_level(r, wp), "P0": rand_level(r, wp),
-                      "R": [rand_level(r, rp) for _ in range(3)], "SUB": rand_level(r, rp), "P1": rand_level(r, rp)})
+    for j in range(n_rand):
+        c = {"W": [rand_level(r, wp) for _ in range(3)], "PUB": rand_level(r, wp), "P0": rand_level(r, wp),
+             "R": [rand_level(r, rp) for _ in range(3)], "SUB": rand_level(r, rp), "P1": rand_level(r, rp)}
+        if j % 2 == 1:
+            # half of the random cases reach their configuration through set_listener
+            c["SL"] = {k: rand_level(r, wp if k[0] in "W" or k in ("PUB", "P0") else rp) for k in ENT if r.random() < 0.5}
+        cases.append(c)
     return cases
 
 
@@ -85,6 +89,11 @@ def corpus():
     c = base(); c["P0"] = (1, KINDS); c["P1"] = (1, KINDS); out.append(c)
     # un-match with entity listeners
     c = base(); c["W"] = [(1, ["PM"])] * 3; c["R"] = [(1, ["SM"])] * 3; out.append(c)
+    # configuration reached through set_listener: listener removed / installed / mask replaced
+    c = base(); c["W"] = [(1, ["PM"]), (0, ["OIQ"]), (1, [])]; c["R"] = [(0, []), (1, ["RIQ"]), (1, ["SM"])]
+    c["PUB"] = (1, KINDS); c["SUB"] = (1, ["SM", "SR"]); c["P1"] = (1, KINDS)
+    c["SL"] = {"W0": (1, KINDS), "W1": (1, KINDS), "R0": (1, KINDS), "R2": (0, []), "PUB": (0, []), "SUB": (1, KINDS), "P1": (0, KINDS)}
+    out.append(c)
     return out
 
 
@@ -92,13 +101,27 @@ def lm(l):
     return "l=%d m=%s" % (l[0], ",".join(l[1]) if l[1] else "-")
 
 
+ENT = ["P0", "P1", "PUB", "SUB", "W0", "R0", "W1", "R1", "W2", "R2"]
+
+
+def final_cfg(c, key):
+    return c[key[0]][int(key[1])] if key[0] in "WR" else c[key]
+
+
 def case_line(c):
-    s = ["P 0 " + lm(c["P0"]), "P 0 " + lm(c["P1"]), "T 0 a", "T 1 a", "T 0 b", "T 1 b", "T 0 c", "T 1 c",
-         "PUB 0 " + lm(c["PUB"]), "SUB 1 " + lm(c["SUB"]),
-         "W 0 0 rel=1 dl=100000000 " + lm(c["W"][0]), "R 0 1 rel=1 dl=100000000 ms=1 mspi=1 " + lm(c["R"][0]),
-         "W 0 2 rel=0 " + lm(c["W"][1]), "R 0 3 rel=1 " + lm(c["R"][1]),
-         "W 0 4 rel=1 " + lm(c["W"][2]), "R 0 5 rel=1 " + lm(c["R"][2]),
-         "net", "adv 100000000", "net", "delW 1", "net", "ev",
+    sl = c.get("SL", {})
+    # an entity listed in c["SL"] is created with that (old) configuration and re-configured with set_listener
+    cr = lambda key: (lm(sl[key]) + " old=1") if key in sl else lm(final_cfg(c, key))
+    s = ["P 0 " + cr("P0"), "P 0 " + cr("P1"), "T 0 a", "T 1 a", "T 0 b", "T 1 b", "T 0 c", "T 1 c",
+         "PUB 0 " + cr("PUB"), "SUB 1 " + cr("SUB"),
+         "W 0 0 rel=1 dl=100000000 " + cr("W0"), "R 0 1 rel=1 dl=100000000 ms=1 mspi=1 " + cr("R0"),
+         "W 0 2 rel=0 " + cr("W1"), "R 0 3 rel=1 " + cr("R1"),
+         "W 0 4 rel=1 " + cr("W2"), "R 0 5 rel=1 " + cr("R2")]
+    for key in ENT:
+        if key in sl:
+            kind, idx = (key[0], key[1]) if key[0] in "WR" else (("P", key[1]) if key[0] == "P" and key[1:].isdigit() else (key, "0"))
+            s.append("SL %s %s %s" % (kind, idx, lm(final_cfg(c, key))))
+    s += ["net", "adv 100000000", "net", "delW 1", "net", "ev",
          "w 0 1 10 1", "net", "ev",
          "w 0 1 10 2", "net", "ev",
          "jump 150000000", "net", "ev",
@@ -118,7 +141,7 @@ def parse_lm(tokens):
 
 
 def parse_line(line):
-    c = {"W": [], "R": []}
+    c = {"W": [], "R": [], "SL": {}}
     np = 0
     for o in [x.strip().split() for x in line.split(";")]:
         if o[0] == "P":
@@ -128,6 +151,15 @@ def parse_line(line):
             c[o[0]] = parse_lm(o)
         elif o[0] in ("W", "R"):
             c[o[0]].append(parse_lm(o))
+        elif o[0] == "SL":
+            key = o[1] + o[2] if o[1] in "WRP" else o[1]
+            new = parse_lm(o)
+            if o[1] in "WR":
+                c["SL"][key] = c[o[1]][int(o[2])]
+                c[o[1]][int(o[2])] = new
+            else:
+                c["SL"][key] = c[key]
+                c[key] = new
     return c
 
 
@@ -156,7 +188,7 @@ def case_term(c, out):
         t = s.split()
         if not t:
             return None
-        if t[0] in ("P", "T", "PUB", "SUB", "W", "R", "w", "delW", "delR") and (len(t) < 2 or t[1] != "0"):
+        if t[0] in ("P", "T", "PUB", "SUB", "W", "R", "w", "delW", "delR", "SL") and (len(t) < 2 or t[1] != "0"):
             return None
         # the un-match status changes did happen: current_count_change = -1
         # (total_count 1, current_count 0; the *_change fields depend on whether a listener read the status before)
